@@ -8,7 +8,7 @@
 From Coq Require Import ZArith Bool List.
 From ArmV Require Import Lib.PyZ Lib.Monad Lib.Machine Spec.Pseudocode Spec.Arch Spec.MachineView Spec.Branches Spec.StepFrame
   Spec.OperandSpec Spec.DPSem Proofs.StateLemmas Proofs.CondProofs Proofs.GuardProofs Proofs.DPLemmas Proofs.StepProofs Proofs.StepDP
-  Proofs.StepInstances Proofs.StepInstancesArm Proofs.StepInstancesThumb Proofs.DPRange Proofs.StepDPReg Proofs.StepInstancesArmReg Proofs.StepInstancesCmp Proofs.StepInstancesArmRsr Proofs.StepInstancesThumbReg Proofs.StepInstancesMov Proofs.StepInstancesThumb2 Proofs.StepInstancesShift Proofs.StepInstancesThumb2Reg Proofs.StepInstancesCmpReg Proofs.StepInstancesCmpT2 Proofs.StepInstancesCmpRsr Proofs.StepInstancesMovReg Proofs.MemProofs Proofs.StepFetch Proofs.StepClosed Proofs.StepInstancesExample.
+  Proofs.StepInstances Proofs.StepInstancesArm Proofs.StepInstancesThumb Proofs.DPRange Proofs.StepDPReg Proofs.StepInstancesArmReg Proofs.StepInstancesCmp Proofs.StepInstancesArmRsr Proofs.StepInstancesThumbReg Proofs.StepInstancesMov Proofs.StepInstancesThumb2 Proofs.StepInstancesShift Proofs.StepInstancesThumb2Reg Proofs.StepInstancesCmpReg Proofs.StepInstancesCmpT2 Proofs.StepInstancesCmpRsr Proofs.StepInstancesMovReg Proofs.StepInstancesShiftT16 Proofs.MemProofs Proofs.StepFetch Proofs.StepClosed Proofs.StepInstancesExample.
 From Gen Require Import enums opsyn core exec conc decoders step.
 Import ListNotations.
 Open Scope Z_scope.
@@ -1126,6 +1126,41 @@ Theorem C01_rrxA1_step cfg s w s1 :
     pc_of (AdvancePC (it_step_after s1 s2)) = add32 (pc_of s1) (opcode_len s1 / 8).
 Proof. exact (rrxA1_step cfg s w s1). Qed.
 Print Assumptions C01_rrxA1_step.
+
+(* the 16-bit Thumb shifts by immediate LSLS / LSRS / ASRS Rd, Rm, #imm5 (000 op imm5 Rm Rd), flags = !InITBlock() *)
+Theorem C01_lslImmediateT1_step cfg s w s1 :
+  ArmV6_fetch_instruction cfg s = Ok w s1 ->
+  0 <= w < 2 ^ 16 -> is_shift_t16 0 true w -> iset_of s1 = 1 -> opcode_len s1 = 16 -> ictx cfg s1 -> cond_holds s1 ->
+  let d := bits w 2 0 in let m := bits w 5 3 in let n := snd (DecodeImmShift 0 (bits w 10 6)) in
+  let op := (code_LslImmediate, [w; not_in_it s1; m; d; n]) in
+  exists s2,
+    dp_sem cfg MOV (not_in_it s1) (Some d) 0 (Op2Reg m SRType_LSL n) (begin_instr s1 op) = Ok tt s2 /\
+    ArmV6_emulate_cycle cfg s = Ok tt (AdvancePC (it_step_after s1 s2)) /\
+    pc_of (AdvancePC (it_step_after s1 s2)) = add32 (pc_of s1) 2.
+Proof. exact (lslImmediateT1_step cfg s w s1). Qed.
+Print Assumptions C01_lslImmediateT1_step.
+Theorem C01_lsrImmediateT1_step cfg s w s1 :
+  ArmV6_fetch_instruction cfg s = Ok w s1 ->
+  0 <= w < 2 ^ 16 -> is_shift_t16 1 false w -> iset_of s1 = 1 -> opcode_len s1 = 16 -> ictx cfg s1 -> cond_holds s1 ->
+  let d := bits w 2 0 in let m := bits w 5 3 in let n := snd (DecodeImmShift 1 (bits w 10 6)) in
+  let op := (code_LsrImmediate, [w; not_in_it s1; m; d; n]) in
+  exists s2,
+    dp_sem cfg MOV (not_in_it s1) (Some d) 0 (Op2Reg m SRType_LSR n) (begin_instr s1 op) = Ok tt s2 /\
+    ArmV6_emulate_cycle cfg s = Ok tt (AdvancePC (it_step_after s1 s2)) /\
+    pc_of (AdvancePC (it_step_after s1 s2)) = add32 (pc_of s1) 2.
+Proof. exact (lsrImmediateT1_step cfg s w s1). Qed.
+Print Assumptions C01_lsrImmediateT1_step.
+Theorem C01_asrImmediateT1_step cfg s w s1 :
+  ArmV6_fetch_instruction cfg s = Ok w s1 ->
+  0 <= w < 2 ^ 16 -> is_shift_t16 2 false w -> iset_of s1 = 1 -> opcode_len s1 = 16 -> ictx cfg s1 -> cond_holds s1 ->
+  let d := bits w 2 0 in let m := bits w 5 3 in let n := snd (DecodeImmShift 2 (bits w 10 6)) in
+  let op := (code_AsrImmediate, [w; not_in_it s1; m; d; n]) in
+  exists s2,
+    dp_sem cfg MOV (not_in_it s1) (Some d) 0 (Op2Reg m SRType_ASR n) (begin_instr s1 op) = Ok tt s2 /\
+    ArmV6_emulate_cycle cfg s = Ok tt (AdvancePC (it_step_after s1 s2)) /\
+    pc_of (AdvancePC (it_step_after s1 s2)) = add32 (pc_of s1) 2.
+Proof. exact (asrImmediateT1_step cfg s w s1). Qed.
+Print Assumptions C01_asrImmediateT1_step.
 
 (* no hypothesis left about the stages of the cycle: ARM state, flat memory map (PMSA, MPU off), word-aligned PC; the instruction is
    whatever word the memory holds at the PC (Props/C13step.v discharges the fetch) *)
